@@ -311,12 +311,13 @@ def _explorer(h, forker, seed):
         rec["checked"] = 1 if (p.queries or getattr(w, "nchecks", 0)) else 0
         rnd = random.Random((seed * 1000003) ^ os.getpid())
         early = False
-        if forker.counter is not None:
+        if forker.counter is not None and rec["status"] == "held" and getattr(w, "nchecks", 0):
+            # the first dozen paths that evaluated an assertion are always written out as samples
             with forker.counter.get_lock():
                 forker.counter.value += 1
                 early = forker.counter.value <= 12
         if rec["status"] == "held":
-            if early or rnd.random() < 0.02:
+            if early or rnd.random() < 0.01:
                 try:
                     rec["sample"] = w.sample()
                 except Signal:
@@ -604,7 +605,7 @@ def run_check(prop, harnesses, level_text="", tier=None, seed=None, budget_s=Non
     sample_fail = []
     n_sample_ok = 0
     for r in results:
-        for s in r.samples[: (4 if tier == "quick" else 12)]:
+        for s in r.samples[: (8 if tier == "quick" else 12)]:
             ok, why = replay_sample(r.harness, s)
             if ok:
                 n_sample_ok += 1
